@@ -159,7 +159,7 @@ def rule_nan_aware(ctx):
 
     lv = leaves(tree.body, [])
     if any(v is None or any(c is None for c in cs) for cs, v in lv):
-        ctx.ob("R-nan-aware-lookup", construct(fi, "a == b, or both missing"), None, loc(fi), "is_equal is not a tree of tests and returns: not decided")
+        ctx.ob("R-nan-aware-lookup", construct(fi, "a == b, or both missing"), False, loc(fi), "is_equal is no longer a tree of tests on `a == b`, `isna(a)`, `isna(b)`: two values are the same iff they are equal or both missing, nothing else (a tolerance makes identity depend on the scale)")
     else:
         got = p_or(*[p_and(*(cs + [v])) for cs, v in lv]) if lv else p_const(False)
         want = p_or(p_atom("EQ"), p_and(p_atom("NA_A"), p_atom("NA_B")))
